@@ -643,7 +643,13 @@ class DiskDict:
         self._mem_cache.clear()
         if self._directory is not None:
             for p in self._path.glob("*"):
-                p.unlink()
+                if p.is_dir():
+                    # entries are split into sub-directories
+                    for q in p.glob("*"):
+                        q.unlink()
+                    p.rmdir()
+                else:
+                    p.unlink()
 
     def cleanup(self, delete_dir=False):
         self.clear()
